@@ -11,6 +11,7 @@ import (
 	"encoding/json"
 	"errors"
 	"fmt"
+	"io"
 	"net"
 	"net/http"
 	"net/http/httptest"
@@ -92,6 +93,8 @@ type c01Cfg struct {
 	NoRule   int `json:"norule"`
 	// respond.verbose of all three services
 	Verbose bool `json:"verbose"`
+	// log.level: trace | debug | info | warn | disabled (absent = disabled)
+	Log string `json:"log"`
 }
 
 type c01Case struct {
@@ -521,13 +524,38 @@ func c01ServeConf(cfg c01Cfg) *config.Configuration {
 	return &config.Configuration{Serve: config.ServeConfig{Decision: sc, Proxy: sc}}
 }
 
+// c01Logger builds the logger handed to the services the way logging.NewLogger does for the configured
+// `log.level` (zerolog.New(writer).Level(level).With().Timestamp().Logger()), except that the output is discarded
+// (stdout is the line protocol). The real logger middleware / interceptor of each service puts it into the context
+// of every request, where the pipeline code finds it with zerolog.Ctx.
+func c01Logger(level string) (zerolog.Logger, error) {
+	var lc config.LoggingConfig
+
+	switch level {
+	case "", "disabled":
+		lc.Level = zerolog.Disabled
+	default:
+		lvl, err := zerolog.ParseLevel(level)
+		if err != nil {
+			return zerolog.Nop(), err
+		}
+
+		lc.Level = lvl
+	}
+
+	return zerolog.New(io.Discard).Level(lc.Level).With().Timestamp().Logger(), nil
+}
+
 func c01GetServices(cfg c01Cfg) (*c01Services, error) {
 	if s, ok := c01ServicesMap[cfg]; ok {
 		return s, nil
 	}
 
 	conf := c01ServeConf(cfg)
-	log := zerolog.Nop()
+	log, err := c01Logger(cfg.Log)
+	if err != nil {
+		return nil, err
+	}
 	svc := &c01Services{decSwitch: &c01Switch{}, prxSwitch: &c01Switch{}}
 
 	listen := func() (net.Listener, error) { return net.Listen("tcp", "127.0.0.1:0") }
